@@ -4,6 +4,8 @@ import json, os, subprocess
 ROOT = os.path.dirname(os.path.dirname(os.path.abspath(__file__)))
 TECH = "symbolic evaluation of the real Python source (own AST->z3 evaluator py2smt) + SMT (z3 5.1; cvc5/z3-4.8 cross-check in thorough tier), counterexamples replayed on the real code"
 CLAIMED = {
+    "C10": ("2. C10", "One T_CheckCamGen evaluation of the CA service from an arbitrary state under the invariant (T_GenCam 100..1000, counter 0..2, times <= now): never below T_GenCamMin, CAM when T_GenCam elapsed, CAM at the first check >= 100 ms after a heading (wrap-aware) / position / speed change, LF container iff first or >= 500 ms, state/invariant preserved, failed send leaves the state, CAM built from the cached report; timer loop always re-arms 100 ms while active (also after an exception), start/stop; generationDeltaTime = ITS time mod 65536 for every millisecond-aligned report time 2004-2040 in an error-bounded model of binary64; VAM: one report against an arbitrary state (first VAM, T_GenVamMin, T_GenVam, suppression when passive/idle, LF container iff first / 2 s).",
+            "Bounds over whole trajectories follow by induction over checks/reports from the one-step VCs (hand-written composition); haversine / Euclidean distance are free non-negative reals; message filling and encoding are stubbed here (C11); real-valued clock."),
     "C01": ("2. C01", "BTP request (header prepend, SDU length, parameter pass-through incl. destination address) and BTP indication (port demultiplexing over two symbolic registered ports, payload and parameters intact) for BTP-A/B; end-to-end composition for SHB, GBC, GAC and GUC: the packet emitted by the symbolically evaluated source operation of station A is fed, as a term, into the symbolically evaluated receive path of station B (and of A itself): delivered exactly once when in range / inside the area, never outside, payload byte-identical, source PV equal to A's ego PV field by field over the signed WGS-84 range, A ignores its own packet.",
             "Payload lengths from a stated menu; 'inside the area' is the sign of a free geometric value (decided in C07); location tables follow the table contract; the location-service buffering part (LS1-LS4 of DESIGN) and request ordering are not built yet; security-on variant not covered."),
     "C07": ("2. C07", "Geometric function F for all six area sub-types and a menu of azimuth angles against EN 302 931's F on the rotated coordinates (projected offsets and semi-axes symbolic, nonlinear real arithmetic); the equirectangular projection and the coordinates handed to it; area-size kernel against pi*a^2 / pi*a*b / 4*a*b and its use in the source operation (refused and nothing sent iff above itsGnMaxGeoAreaSize); Annex D forwarding-algorithm selection over arbitrary F(ego), F(sender), PAI and entry presence; GBC/GAC receivers deliver iff F(ego) >= 0, never forward oversized areas, and the GBC forwarder discards per Annex D.",
